@@ -1,6 +1,6 @@
 /-
-  Lemmas for the completeness half of C05: strictly inside all windows, the SP model takes the
-  same decisions on a message as on its time-sanitised copy.
+  Lemmas for the completeness half of C05: strictly inside all skew-extended windows (none of them
+  inverted), the SP model takes the same decisions on a message as on its time-sanitised copy.
 -/
 import PysamlModel.Proofs.Sp
 
@@ -27,15 +27,17 @@ def Rel (st st' : St) : Prop :=
 
 theorem Rel.refl (st : St) : Rel st st := ⟨rfl, rfl, rfl⟩
 
-def insideOpt (now : Int) (nb nooa : Option Int) : Prop :=
-  (∀ t, nooa = some t → now < t) ∧ (∀ t, nb = some t → t < now)
+/-- strictly inside the window widened by `skew` on both sides, and the window is not inverted -/
+def insideOpt (now : Int) (skew : Nat) (nb nooa : Option Int) : Prop :=
+  (∀ t, nooa = some t → now < t + skew) ∧ (∀ b, nb = some b → b < now + skew) ∧
+  (∀ b t, nb = some b → nooa = some t → b ≤ t)
 
-def insideA (env : Env) (a : Assertion) : Prop :=
-  (∀ c, a.conditions = some c → insideOpt env.now c.nb c.nooa) ∧
-  (∀ s ∈ a.authn, ∀ t, s.sessionNooa = some t → env.now < t) ∧
-  (∀ s, a.subject = some s → ∀ sc ∈ s.confs, ∀ d, sc.data = some d → insideOpt env.now d.nb d.nooa)
+def insideA (cfg : Cfg) (env : Env) (a : Assertion) : Prop :=
+  (∀ c, a.conditions = some c → insideOpt env.now cfg.skew c.nb c.nooa) ∧
+  (∀ s ∈ a.authn, ∀ t, s.sessionNooa = some t → env.now < t + cfg.skew) ∧
+  (∀ s, a.subject = some s → ∀ sc ∈ s.confs, ∀ d, sc.data = some d → insideOpt env.now cfg.skew d.nb d.nooa)
 
-theorem optExpired_inside {now : Int} {skew : Nat} {t : Option Int} (h : ∀ u, t = some u → now < u) :
+theorem optExpired_inside {now : Int} {skew : Nat} {t : Option Int} (h : ∀ u, t = some u → now < u + skew) :
     optExpired now skew t = false := by
   cases t with
   | none => rfl
@@ -44,7 +46,7 @@ theorem optExpired_inside {now : Int} {skew : Nat} {t : Option Int} (h : ∀ u, 
     simp only [optExpired, onOrAfterOk, Bool.not_not, decide_eq_false_iff_not]
     omega
 
-theorem optPremature_inside {now : Int} {skew : Nat} {t : Option Int} (h : ∀ u, t = some u → u < now) :
+theorem optPremature_inside {now : Int} {skew : Nat} {t : Option Int} (h : ∀ u, t = some u → u < now + skew) :
     optPremature now skew t = false := by
   cases t with
   | none => rfl
@@ -53,7 +55,7 @@ theorem optPremature_inside {now : Int} {skew : Nat} {t : Option Int} (h : ∀ u
     simp only [optPremature, beforeOk, Bool.not_not, decide_eq_false_iff_not]
     omega
 
-theorem laterThan_inside {now : Int} {nb nooa : Option Int} (h : insideOpt now nb nooa) :
+theorem laterThan_inside {now : Int} {skew : Nat} {nb nooa : Option Int} (h : insideOpt now skew nb nooa) :
     laterThan nooa nb = (nb.isNone || nooa.isSome) := by
   cases nb with
   | none => cases nooa <;> rfl
@@ -61,8 +63,7 @@ theorem laterThan_inside {now : Int} {nb nooa : Option Int} (h : insideOpt now n
     cases nooa with
     | none => rfl
     | some a =>
-      have h1 := h.1 a rfl
-      have h2 := h.2 b rfl
+      have h3 := h.2.2 b a rfl rfl
       simp only [laterThan, Option.isNone_some, Option.isSome_some, Bool.or_true, decide_eq_true_eq]
       omega
 
@@ -73,7 +74,7 @@ theorem laterThan_san (now : Int) (nb nooa : Option Int) :
 
 /-! ### authn statement -/
 theorem authnStatementOk_times {cfg : Cfg} {env : Env} {st st' st1' : St} {a : Assertion}
-    (hrel : Rel st st') (hin : insideA env a)
+    (hrel : Rel st st') (hin : insideA cfg env a)
     (h : authnStatementOk cfg env st' (sanA env a) = .ok st1') :
     ∃ st1, authnStatementOk cfg env st a = .ok st1 ∧ Rel st1 st1' := by
   obtain ⟨s', hs', _, hc, _, hn, hh, _⟩ := authnStatementOk_inv h
@@ -92,7 +93,7 @@ theorem authnStatementOk_times {cfg : Cfg} {env : Env} {st st' st1' : St} {a : A
     cases hsn : s.sessionNooa with
     | none => exact ⟨st, rfl, ⟨hrel.1.trans hc.symm, hrel.2.1.trans hn.symm, hrel.2.2.trans hh.symm⟩⟩
     | some t =>
-      have hlt : env.now < t := hin.2.1 s (by rw [hl]; simp) t hsn
+      have hlt : env.now < t + cfg.skew := hin.2.1 s (by rw [hl]; simp) t hsn
       have hok : onOrAfterOk env.now cfg.skew t = true := by
         simp only [onOrAfterOk, Bool.not_eq_true', decide_eq_false_iff_not]; omega
       simp only [hok, if_true]
@@ -102,7 +103,7 @@ theorem authnStatementOk_times {cfg : Cfg} {env : Env} {st st' st1' : St} {a : A
 
 /-! ### conditions -/
 theorem conditionOk_times {cfg : Cfg} {env : Env} {st st' st1' : St} {a : Assertion}
-    (hrel : Rel st st') (hin : insideA env a)
+    (hrel : Rel st st') (hin : insideA cfg env a)
     (h : conditionOk cfg env st' (sanA env a) = .ok st1') :
     ∃ st1, conditionOk cfg env st a = .ok st1 ∧ Rel st1 st1' := by
   have hcf := conditionOk_cameFrom h
@@ -158,7 +159,7 @@ theorem conditionOk_times {cfg : Cfg} {env : Env} {st st' st1' : St} {a : Assert
       split at h
       · cases h
       next hord =>
-        rw [if_neg hord, optExpired_inside hins.1, optPremature_inside hins.2]
+        rw [if_neg hord, optExpired_inside hins.1, optPremature_inside hins.2.1]
         simp only [Bool.false_eq_true, if_false]
         split at h
         · cases h
@@ -176,20 +177,23 @@ theorem conditionOk_times {cfg : Cfg} {env : Env} {st st' st1' : St} {a : Assert
 
 /-! ### subject confirmations -/
 theorem bearer_times {cfg : Cfg} {env : Env} {st st' : St} {d : ScData}
-    (hrel : Rel st st') (hin : insideOpt env.now d.nb d.nooa) :
+    (hrel : Rel st st') (hin : insideOpt env.now cfg.skew d.nb d.nooa) :
     (∀ st1', bearerConfirmed cfg env st' (some (sanData env d)) = .yes st1' →
         ∃ st1, bearerConfirmed cfg env st (some d) = .yes st1 ∧ Rel st1 st1') ∧
     (bearerConfirmed cfg env st' (some (sanData env d)) = .skip → bearerConfirmed cfg env st (some d) = .skip) := by
-  have hinS : insideOpt env.now (sanData env d).nb (sanData env d).nooa := by
-    constructor
+  have hinS : insideOpt env.now cfg.skew (sanData env d).nb (sanData env d).nooa := by
+    refine ⟨?_, ?_, ?_⟩
     · intro t ht; simp only [sanData, Option.map_eq_some_iff] at ht; obtain ⟨_, _, rfl⟩ := ht; omega
     · intro t ht; simp only [sanData, Option.map_eq_some_iff] at ht; obtain ⟨_, _, rfl⟩ := ht; omega
+    · intro b t hb ht
+      simp only [sanData, Option.map_eq_some_iff] at hb ht
+      obtain ⟨_, _, rfl⟩ := hb; obtain ⟨_, _, rfl⟩ := ht; omega
   have hl : laterThan d.nooa d.nb = (d.nb.isNone || d.nooa.isSome) := laterThan_inside hin
   have hl' : laterThan (sanData env d).nooa (sanData env d).nb = (d.nb.isNone || d.nooa.isSome) := laterThan_san _ _ _
   have hirt : (sanData env d).irt = d.irt := rfl
   have hcf : st'.cameFrom.isNone = st.cameFrom.isNone := by rw [hrel.1]
   unfold bearerConfirmed
-  simp only [optExpired_inside hin.1, optPremature_inside hin.2, optExpired_inside hinS.1, optPremature_inside hinS.2,
+  simp only [optExpired_inside hin.1, optPremature_inside hin.2.1, optExpired_inside hinS.1, optPremature_inside hinS.2.1,
     Bool.false_eq_true, if_false, hl, hl', hirt, hcf]
   constructor
   · intro st1' h
@@ -242,7 +246,7 @@ theorem bearer_times {cfg : Cfg} {env : Env} {st st' : St} {d : ScData}
 
 theorem confirmLoop_times_ok {cfg : Cfg} {env : Env} :
     ∀ {confs : List SubjConf} {st st' st1' : St} {n m : Nat}, Rel st st' →
-      (∀ sc ∈ confs, ∀ d, sc.data = some d → insideOpt env.now d.nb d.nooa) →
+      (∀ sc ∈ confs, ∀ d, sc.data = some d → insideOpt env.now cfg.skew d.nb d.nooa) →
       confirmLoop cfg env st' (confs.map (sanSc env)) n = .ok (st1', m) →
       ∃ st1, confirmLoop cfg env st confs n = .ok (st1, m) ∧ Rel st1 st1'
   | [], st, st', st1', n, m, hrel, _, h => by
@@ -250,7 +254,7 @@ theorem confirmLoop_times_ok {cfg : Cfg} {env : Env} :
     cases h
     exact ⟨st, by simp [confirmLoop], hrel⟩
   | sc :: rest, st, st', st1', n, m, hrel, hin, h => by
-    have hinr : ∀ x ∈ rest, ∀ d, x.data = some d → insideOpt env.now d.nb d.nooa :=
+    have hinr : ∀ x ∈ rest, ∀ d, x.data = some d → insideOpt env.now cfg.skew d.nb d.nooa :=
       fun x hx => hin x (List.mem_cons_of_mem _ hx)
     simp only [List.map_cons] at h
     unfold confirmLoop at h ⊢
@@ -348,7 +352,7 @@ theorem attestingOk_san (env : Env) (confs : List SubjConf) :
   cases sc.data <;> rfl
 
 theorem getSubject_times {cfg : Cfg} {env : Env} {st st' st1' : St} {a : Assertion}
-    (hrel : Rel st st') (hin : insideA env a)
+    (hrel : Rel st st') (hin : insideA cfg env a)
     (h : getSubject cfg env st' (sanA env a) = .ok st1') :
     ∃ st1, getSubject cfg env st a = .ok st1 ∧ Rel st1 st1' := by
   have hsub : (sanA env a).subject = a.subject.map (fun s => { s with confs := s.confs.map (sanSc env) }) := rfl
@@ -380,7 +384,7 @@ theorem getSubject_times {cfg : Cfg} {env : Env} {st st' st1' : St} {a : Asserti
           | some nid => exact ⟨hrel2.1, rfl, hrel2.2.2⟩
 
 theorem checkAssertion_times {cfg : Cfg} {env : Env} {rs v : Bool} {st st' st1' : St} {a : Assertion}
-    (hrel : Rel st st') (hin : insideA env a)
+    (hrel : Rel st st') (hin : insideA cfg env a)
     (h : checkAssertion cfg env rs v st' (sanA env a) = .ok st1') :
     ∃ st1, checkAssertion cfg env rs v st a = .ok st1 ∧ Rel st1 st1' := by
   have hsig : (sanA env a).sig = a.sig := rfl
@@ -422,7 +426,7 @@ theorem checkAssertion_times {cfg : Cfg} {env : Env} {rs v : Bool} {st st' st1' 
               exact ⟨s3, rfl, r3⟩
 
 theorem checkAll_times {cfg : Cfg} {env : Env} {rs v : Bool} :
-    ∀ {as : List Assertion} {st st' st1' : St}, Rel st st' → (∀ a ∈ as, insideA env a) →
+    ∀ {as : List Assertion} {st st' st1' : St}, Rel st st' → (∀ a ∈ as, insideA cfg env a) →
       checkAll cfg env rs v st' (as.map (sanA env)) = .ok st1' →
       ∃ st1, checkAll cfg env rs v st as = .ok st1 ∧ Rel st1 st1'
   | [], st, st', st1', hrel, _, h => by
@@ -502,7 +506,7 @@ theorem pass1_san (cfg : Cfg) (env : Env) (r : Response) : pass1 cfg env (saniti
   rw [loads_san, loads_san]
 
 theorem verifyEnvelope_san {cfg : Cfg} {env : Env} {r : Response}
-    (hii : env.now - r.issueInstant < 86400 ∧ r.issueInstant - env.now < 86400)
+    (hii : env.now - r.issueInstant < 86400 + cfg.skew ∧ r.issueInstant - env.now < 86400 + cfg.skew)
     (h : verifyEnvelope cfg env (sanitiseTimes env r) = .ok true) : verifyEnvelope cfg env r = .ok true := by
   obtain ⟨hv, hd, _, hs⟩ := verifyEnvelope_true_inv h
   have hv' : r.version = "2.0" := hv
@@ -562,7 +566,7 @@ theorem parseAssertion_forced_or {cfg : Cfg} {env : Env} {st : St} {r : Response
 
 /-- `parse_assertion` on the message, given success on the sanitised copy -/
 theorem parseAssertion_times {cfg : Cfg} {env : Env} {rs : Bool} {st st' : St} {r : Response} {p' : Parsed}
-    (hrel : Rel st st') (hin : ∀ a ∈ visible r, insideA env a)
+    (hrel : Rel st st') (hin : ∀ a ∈ visible r, insideA cfg env a)
     (h : parseAssertion cfg env rs st' (sanitiseTimes env r) = .ok p') :
     ∃ p, parseAssertion cfg env rs st r = .ok p ∧ Rel p.st p'.st ∧ p.encLeft = p'.encLeft ∧
       p.used = decOf r ++ plainOf r := by
